@@ -24,6 +24,7 @@ pub static P: C34 = C34;
 
 const ID_BASE: u32 = 1000;
 const N_REL: u32 = 12;
+const UNREG_BASE: u32 = 5000;
 
 /// a second sample server whose clients may NOT modify the address space (only its state is used)
 fn readonly_state() -> Arc<RwLock<ServerState>> {
@@ -103,6 +104,9 @@ impl R {
     fn nid(&self, n: u32) -> NodeId {
         if n < ID_BASE {
             NodeId::new(0, n)
+        } else if n >= UNREG_BASE {
+            // a namespace index that is not registered in the address space
+            NodeId::new(2, n)
         } else {
             NodeId::new(1, self.base + (n - ID_BASE))
         }
@@ -113,6 +117,7 @@ impl R {
         match (&id.identifier, id.namespace) {
             (Identifier::Numeric(v), 0) if *v < ID_BASE => Some(*v),
             (Identifier::Numeric(v), 1) if *v >= self.base => Some(ID_BASE + (*v - self.base)),
+            (Identifier::Numeric(v), 2) if *v >= UNREG_BASE => Some(*v),
             _ => None,
         }
     }
@@ -280,10 +285,11 @@ impl Prop for C34 {
                     0 => {
                         // AddNodes: requested ids sit at / just ahead of the id counter so that
                         // server-assigned ids run into them
-                        let req = match rng.weighted(&[5, 3, 2]) {
+                        let req = match rng.weighted(&[10, 6, 4, 1]) {
                             0 => None,
                             1 => Some(ID_BASE + counter + rng.below(2) as u32),
-                            _ => Some(ID_BASE + rng.below(k as u64) as u32),
+                            2 => Some(ID_BASE + rng.below(k as u64) as u32),
+                            _ => Some(UNREG_BASE + rng.below(2) as u32),
                         };
                         let si = if rng.chance(1, 30) { 1 } else { 0 };
                         let parent = pick_node(rng, &made);
@@ -316,7 +322,7 @@ impl Prop for C34 {
                                     counter += 1;
                                 }
                                 Some(r) => {
-                                    if !made.contains(&r) {
+                                    if r < UNREG_BASE && !made.contains(&r) {
                                         made.push(r);
                                     }
                                 }
@@ -326,7 +332,7 @@ impl Prop for C34 {
                         out.push(format!("addnode {} {} {} {} {} {} {} {}", reqs, si, parent, rts, name, cls, td, attrs));
                     }
                     1 => {
-                        // AddReferences (never a self reference: that panic is C33's); sometimes the
+                        // AddReferences; sometimes the
                         // previous request again (duplicate)
                         if let (Some(l), true) = (&last_ref, rng.chance(1, 5)) {
                             out.push(l.clone());
@@ -334,7 +340,8 @@ impl Prop for C34 {
                         }
                         let src = pick_node(rng, &made);
                         let mut tgt = pick_node(rng, &made);
-                        if tgt == src {
+                        // a reference from a node to itself is answered BadReferenceNotAllowed; keep it rare
+                        if tgt == src && !rng.chance(1, 4) {
                             tgt = if src == 85 { ID_BASE } else { 85 };
                         }
                         let si = if rng.chance(1, 25) { 1 } else { 0 };
@@ -383,7 +390,10 @@ impl Runner for R {
                 let fx = fixtures::server();
                 self.state = if *c == "1" { fx.server_state.clone() } else { readonly_state() };
                 self.session = Arc::new(RwLock::new(Session::new(self.state.clone())));
-                self.space = Arc::new(RwLock::new(if *full == "1" { AddressSpace::new() } else { small_space() }));
+                let mut space = if *full == "1" { AddressSpace::new() } else { small_space() };
+                // as `set_server_state` does with the application uri: namespace 1 is registered, 2 is not
+                let _ = space.register_namespace("urn:verif-c34");
+                self.space = Arc::new(RwLock::new(space));
                 // the id counter is global to the process: ids are counted from its current value
                 self.base = match NodeId::next_numeric(1).identifier {
                     Identifier::Numeric(v) => v + 1,
@@ -553,9 +563,8 @@ impl Runner for R {
         }
     }
 
-    /// the panics reachable through these services (self reference, browse names that the relative
-    /// path parser rejects, unregistered namespaces) belong to property C33; this generator avoids
-    /// those inputs, so a panic here is unexpected and reported
+    /// since the C33 fixes none of the generated inputs can panic (theorem `run_total` for the
+    /// model); a panic here is reported
     fn on_panic(&self, _toks: &[&str]) -> Verdict {
         Verdict::fail("no_panic", "c33-territory", "node management panicked")
     }
